@@ -204,7 +204,7 @@ def check(run: Run) -> None:
         if not lp or sh.get("init") != "0" or sh.get("cond_op") != "<" or sh.get("cond_r") != "combiners.size()" or sh.get("step") != "++":
             run.finding("C11.bp", "destroy_combiners:order", f"combiners must be destroyed in ascending heap order (root first): {sh}", loc=RED)
         fa = R.fn(run, RED, "~ReduceNodeStorage")
-        seq = [R.callee_name(c) for c in R.calls(fa)]
+        seq = [R.callee_name(c) for c in R.calls(fa) if R.callee_name(c) in ("destroy_previous_generation", "destroy_combiners")]   # the two deciding calls, in order
         if seq != ["destroy_previous_generation", "destroy_combiners"]:
             run.finding("C11.bp", "~ReduceNodeStorage:order", f"the previous generation must be destroyed before the current one: {seq}", loc=RED)
 
